@@ -80,9 +80,16 @@ Ltac prim_solve :=
     [ apply ps_refl
     | apply prims_one; first
         [ apply p_err | apply p_obs | apply p_ghost | apply p_sub_all
-        | eapply p_actor; [eassumption|repeat split]
+        | eapply p_actor; [eassumption|]; repeat match goal with |- context[match ?e with _ => _ end] => destruct e end; solve [repeat split]
         | eapply p_sub_rm; eassumption
         | eapply p_sub_add; eassumption ] ].
+
+Ltac set_actor_cases :=
+  match goal with
+  | |- prims _ _ (set_actor _ _ ?b) =>
+      apply prims_one; eapply p_actor; [eassumption|];
+      repeat match goal with |- context[match ?e with _ => _ end] => destruct e end; solve [repeat split]
+  end.
 
 Lemma exec1_prims s t held i : prims t s (fst (exec1 s t held i)).
 Proof.
@@ -124,7 +131,7 @@ Proof.
         apply prims_one. apply p_spawn.
         destruct t as [a|i]; [reflexivity|]. destruct (nth_error (exts s) i) eqn:E; [|reflexivity].
         eapply map_upd_same; [exact E|reflexivity]. }
-      destruct (a_state x); [apply Hsp|apply Hsp|cbn [fst]; prim_solve].
+      destruct (a_state x); [exact (Hsp Running)|exact (Hsp Killing)|cbn [fst]; prim_solve].
     + (* AStash *) destruct (a_cur x); cbn [fst]; prim_solve.
     + (* AUnstash *)
       destruct n; [|destruct (a_stash x); cbn [fst]; prim_solve].
@@ -140,7 +147,7 @@ Proof.
   - (* IOnKilled *)
     destruct (a_zombie x); cbn [fst]; [prim_solve|].
     destruct (ref_eq s who (RObj (self_of t))); cbn [fst]; [prim_solve|].
-    destruct (ref_path s who); prim_solve.
+    set_actor_cases.
   - (* ICheckMark *)
     destruct (a_children x); [|cbn [fst]; prim_solve]. destruct (a_state x); cbn [fst]; prim_solve.
   - (* ICleanup *)
@@ -149,4 +156,757 @@ Proof.
     destruct (a_hooks x) as [|[[h1 h2] h3] rest]; [cbn [fst]; prim_solve|].
     destruct (h2 && h3); cbn [fst]; prim_solve.
   - (* ISupApply *) destruct d; cbn [fst]; prim_solve.
+Qed.
+
+Lemma exec1_prims' s t held i s' fr : exec1 s t held i = (s', fr) -> prims t s s'.
+Proof. intros E. change s' with (fst (s', fr)). rewrite <- E. apply exec1_prims. Qed.
+
+Lemma resolve_prims' s t r m s' : resolve s r = (m, s') -> prims t s s'.
+Proof. intros E. change s' with (snd (m, s')). rewrite <- E. apply resolve_prims. Qed.
+
+Lemma deliver_prims' s t m e s' b : deliver s m e = (s', b) -> prims t s s'.
+Proof. intros E. change s' with (fst (s', b)). rewrite <- E. apply deliver_prims. Qed.
+
+Lemma run_atomic_prims fuel : forall s t, prims t s (run_atomic fuel s t).
+Proof.
+  induction fuel as [|f IH]; intros s t; cbn [run_atomic]; [prim_solve|].
+  destruct (pend_of s t) as [|i rest] eqn:Hp; [prim_solve|].
+  assert (Hgen : prims t s (let s0 := set_pend s t rest in
+                            let (s1, front) := exec1 s0 t (held_of s0 t) i in
+                            run_atomic f (set_pend s1 t (front ++ pend_of s1 t)) t)).
+  { cbv zeta. destruct (exec1 (set_pend s t rest) t (held_of (set_pend s t rest) t) i) as [s1 front] eqn:E.
+    eapply prims_trans; [|apply IH]. eapply ps_step; [|apply p_pend].
+    eapply prims_trans; [apply prims_one, p_pend|]. eapply exec1_prims'; exact E. }
+  destruct i as [sys to sender m|sys to sender m|to e| |sys tos sender m|c d rem done| | | |a|m acts r| |ty payload|poison|who| | | | |c d targets|o| ];
+    cbn [yielding]; try prim_solve; try exact Hgen.
+  - destruct (resolve s to) as [mb s1] eqn:E. eapply ps_step; [|apply p_pend]. eapply resolve_prims'; exact E.
+  - destruct rem; [exact Hgen|prim_solve].
+Qed.
+
+Lemma dispatch_prims s a x e : get s a = Some x -> prims (TA a) s (fst (dispatch s a x e)).
+Proof.
+  intros Hx. unfold dispatch.
+  repeat match goal with |- context[match ?e with _ => _ end] => destruct e end; cbn [fst]; try prim_solve.
+  all: eapply ps_step; [|apply p_ghost]; prim_solve.
+Qed.
+
+Lemma step_prims s ev : prims (ev_thread ev) s (step s ev).
+Proof.
+  destruct ev as [a|a|a|a|t k|t|t|t|t|i]; cbn [step ev_thread].
+  - destruct (get s a) as [x|] eqn:Hx; [|prim_solve]. destruct (a_cons x), (a_sq x); prim_solve.
+  - destruct (get s a) as [x|] eqn:Hx; [|prim_solve]. destruct (a_cons x); prim_solve.
+  - destruct (get s a) as [x|] eqn:Hx; [|prim_solve]. destruct (a_cons x), (a_uq x); prim_solve.
+  - destruct (get s a) as [x|] eqn:Hx; [|prim_solve]. destruct (a_cons x) as [| | | |e|md]; try prim_solve.
+    match goal with |- context[dispatch ?s1 a ?x0 e] => destruct (dispatch s1 a x0 e) as [s2 ins] eqn:E end.
+    eapply prims_trans; [|apply run_atomic_prims]. eapply ps_step; [|apply p_pend].
+    eapply prims_trans; [|change s2 with (fst (s2, ins)); rewrite <- E; apply dispatch_prims; eapply get_set_actor_same; exact Hx].
+    prim_solve.
+  - destruct (pend_of s t) as [|i rest]; [prim_solve|].
+    destruct i as [sys to sender m|sys to sender m|to e| |sys tos sender m|c d rem done| | | |a|m acts r| |ty payload|poison|who| | | | |c d targets|o| ];
+      try prim_solve.
+    + destruct (deliver s to _) as [s2 b] eqn:E. eapply ps_step; [|apply p_pend]. eapply deliver_prims'; exact E.
+    + eapply ps_step; [|apply p_pend]. apply push_mb_prims.
+    + destruct (nth_error tos k) as [to|]; [|prim_solve].
+      destruct (resolve s to) as [mb s1] eqn:E1. destruct (deliver s1 mb _) as [s2 b] eqn:E2.
+      eapply ps_step; [|apply p_pend]. eapply prims_trans; [eapply resolve_prims'; exact E1|eapply deliver_prims'; exact E2].
+    + destruct (nth_error rem k) as [to|]; [|prim_solve].
+      destruct (resolve s to) as [mb s1] eqn:E1. destruct (deliver s1 mb _) as [s2 b] eqn:E2.
+      eapply ps_step; [|apply p_pend]. eapply prims_trans; [eapply resolve_prims'; exact E1|eapply deliver_prims'; exact E2].
+  - destruct (pend_of s t) as [|i rest]; [prim_solve|]. destruct i; try prim_solve.
+    eapply prims_trans; [|apply run_atomic_prims]. apply prims_one, p_pend.
+  - destruct (pend_of s t) as [|i rest]; [prim_solve|]. destruct i; try prim_solve.
+    eapply prims_trans; [|apply run_atomic_prims]. eapply ps_step; [|apply p_pend].
+    apply with_actor_prims. intros x; repeat split.
+  - destruct (pend_of s t) as [|i rest]; [prim_solve|].
+    destruct (get s (self_of t)) as [x|] eqn:Hx; destruct i; try prim_solve.
+    destruct (a_paused x).
+    + eapply ps_step; [|apply p_pend]. prim_solve.
+    + eapply prims_trans; [|apply run_atomic_prims]. apply prims_one, p_pend.
+  - destruct (pend_of s t) as [|i rest]; [prim_solve|]. destruct i; try prim_solve.
+    eapply prims_trans; [|apply run_atomic_prims]. apply prims_one, p_pend.
+  - apply run_atomic_prims.
+Qed.
+
+(* ------------------------------------------------------------------ invariants through prims *)
+
+Lemma prims_inv (I : state -> Prop) t :
+  (forall s s', prim t s s' -> I s -> I s') -> forall s s', prims t s s' -> I s -> I s'.
+Proof. intros H s s' Hp. induction Hp; eauto. Qed.
+
+Lemma run_events_inv (I : state -> Prop) :
+  (forall t s s', prim t s s' -> I s -> I s') -> forall evs s, I s -> I (run_events evs s).
+Proof.
+  intros H evs. unfold run_events. induction evs as [|ev evs IH]; intros s Hs; cbn [fold_left]; [exact Hs|].
+  apply IH. eapply prims_inv; [apply H|apply step_prims|exact Hs].
+Qed.
+
+Lemma reachable_inv (I : state -> Prop) :
+  (forall scs, I (init_with scs)) -> (forall t s s', prim t s s' -> I s -> I s') -> forall s, reachable s -> I s.
+Proof. intros H0 H s (scs & evs & -> & _). apply run_events_inv; auto. Qed.
+
+Lemma set_exts_fields scs : forall s i,
+  actors (set_exts s i scs) = actors s /\ subs (set_exts s i scs) = subs s /\ reg (set_exts s i scs) = reg s.
+Proof.
+  induction scs as [|sc r IH]; intros s i; cbn [set_exts]; [auto|].
+  destruct (IH (set_pend s (TX i) (map IAct sc)) (S i)) as (-> & -> & ->).
+  cbn [set_pend]. destruct (nth_error (exts s) i); cbn; auto.
+Qed.
+
+Lemma init_with_actors scs : actors (init_with scs) = [new_actor [] 0%N None root_spec].
+Proof. unfold init_with. destruct (set_exts_fields scs (init_state (length scs)) 0) as (-> & _). reflexivity. Qed.
+
+Lemma init_with_subs scs : subs (init_with scs) = [].
+Proof. unfold init_with. destruct (set_exts_fields scs (init_state (length scs)) 0) as (_ & -> & _). reflexivity. Qed.
+
+(** contexts are never removed and never change identity *)
+Definition keeps_actors (s s' : state) : Prop :=
+  forall a x, get s a = Some x -> exists x', get s' a = Some x' /\
+    a_path x' = a_path x /\ a_gen x' = a_gen x /\ a_parent x' = a_parent x /\ a_spec x' = a_spec x.
+
+Lemma get_set_pend s t p a x : get s a = Some x -> exists x', get (set_pend s t p) a = Some x' /\
+    a_path x' = a_path x /\ a_gen x' = a_gen x /\ a_parent x' = a_parent x /\ a_spec x' = a_spec x.
+Proof.
+  intros H. destruct t as [b|i]; cbn [set_pend].
+  - unfold with_actor. destruct (get s b) as [y|] eqn:E; [|exists x; cbn; auto].
+    destruct (Nat.eq_dec b a) as [->|N].
+    + rewrite (get_set_actor_same _ _ _ _ E). rewrite H in E; inversion E; subst. eexists; split; [reflexivity|]. cbn; auto.
+    + rewrite get_set_actor_other by exact N. exists x; auto.
+  - destruct (nth_error (exts s) i); exists x; cbn; auto.
+Qed.
+
+Lemma prim_keeps_actors t s s' : prim t s s' -> keeps_actors s s'.
+Proof.
+  intros Hp a x H. destruct Hp; try (exists x; cbn; auto; fail).
+  - destruct (Nat.eq_dec a0 a) as [->|N].
+    + rewrite (get_set_actor_same _ _ _ _ H0). rewrite H in H0; inversion H0; subst.
+      destruct H1 as (? & ? & ? & ? & ?). eexists; split; [reflexivity|]. auto.
+    + rewrite get_set_actor_other by exact N. exists x; auto.
+  - apply get_set_pend. exact H.
+  - exists x. split; [|auto]. unfold get in *; cbn. rewrite nth_error_app1; [exact H|]. apply nth_error_Some. congruence.
+Qed.
+
+Lemma keeps_actors_refl s : keeps_actors s s.
+Proof. intros a x H; exists x; auto. Qed.
+
+Lemma keeps_actors_trans s1 s2 s3 : keeps_actors s1 s2 -> keeps_actors s2 s3 -> keeps_actors s1 s3.
+Proof.
+  intros H1 H2 a x H. destruct (H1 a x H) as (x' & H' & E1 & E2 & E3 & E4).
+  destruct (H2 a x' H') as (x'' & H'' & F1 & F2 & F3 & F4). exists x''. repeat split; congruence.
+Qed.
+
+Lemma prims_keeps_actors t s s' : prims t s s' -> keeps_actors s s'.
+Proof. intros H; induction H; [apply keeps_actors_refl|]. eapply keeps_actors_trans; [eassumption|eapply prim_keeps_actors; eassumption]. Qed.
+
+Lemma step_keeps_actors s ev : keeps_actors s (step s ev).
+Proof. eapply prims_keeps_actors, step_prims. Qed.
+
+Lemma run_events_keeps_actors evs : forall s, keeps_actors s (run_events evs s).
+Proof.
+  unfold run_events. induction evs as [|ev evs IH]; intros s; cbn [fold_left]; [apply keeps_actors_refl|].
+  eapply keeps_actors_trans; [apply step_keeps_actors|apply IH].
+Qed.
+
+(** the root context (actor 0) is the guard: no parent, no strategy *)
+Lemma root_inv s : reachable s -> exists x, get s 0 = Some x /\ a_spec x = root_spec /\ a_parent x = None /\ a_path x = [].
+Proof.
+  intros (scs & evs & -> & _).
+  destruct (run_events_keeps_actors evs (init_with scs) 0 (new_actor [] 0%N None root_spec)) as (x & H & E1 & E2 & E3 & E4).
+  - unfold get. rewrite init_with_actors. reflexivity.
+  - exists x. cbn in *. auto.
+Qed.
+
+(** [err] is sticky *)
+Lemma prim_err t s s' : prim t s s' -> err s = true -> err s' = true.
+Proof.
+  intros Hp H. destruct Hp; cbn; auto.
+  destruct t as [b|i]; cbn [set_pend]; unfold with_actor.
+  - destruct (get s b); cbn; auto.
+  - destruct (nth_error (exts s) i); cbn; auto.
+Qed.
+
+Lemma step_err s ev : err s = true -> err (step s ev) = true.
+Proof. intros H. eapply (prims_inv (fun s => err s = true)); [intros; eapply prim_err; eassumption|apply step_prims|exact H]. Qed.
+
+Lemma run_events_err evs : forall s, err s = true -> err (run_events evs s) = true.
+Proof. unfold run_events. induction evs as [|ev evs IH]; intros s H; cbn [fold_left]; [exact H|]. apply IH, step_err, H. Qed.
+
+Lemma reachable_step s ev : reachable s -> err (step s ev) = false -> reachable (step s ev).
+Proof.
+  intros (scs & evs & -> & _) H. exists scs, (evs ++ [ev]). split; [|exact H].
+  unfold run_events. rewrite fold_left_app. reflexivity.
+Qed.
+
+(* ------------------------------------------------------------------ C08-a/c: onSupervise *)
+
+Lemma dead_for_dispatch s a x e :
+  dead_for x e = false ->
+  dispatch s a x e =
+    let x1 := set_cur x e in
+    let s1 := set_actor s a x1 in
+    match e_msg e with
+    | MSup c => (set_actor s a (set_decisions x1 (snd (sup_decide x))), [ISupPause c (fst (sup_decide x)) (sup_targets x c) []; IEndHandler])
+    | MCmdPause => (s1, [IPauseSt; IPub evPaused (actor_key x); IEndHandler])
+    | MCmdResume => (s1, [IResume1; IPub evResumed (actor_key x); IEndHandler])
+    | MKilled who => (s1, [IOnKilled who; IEndHandler])
+    | MLaunch => (s1, [IBeh MLaunch (sp_launch (a_spec x)) RecFail; IPub evLaunched (actor_key x); IEndHandler])
+    | MUser tag acts => (s1, [IBeh (e_msg e) acts RecFail; IEndHandler])
+    | MEvent ty payload => (s1, [IBeh (e_msg e) [] RecFail; IEndHandler])
+    | _ => dispatch s a x e
+    end.
+Proof.
+  intros Hd. unfold dispatch. unfold dead_for in Hd. cbv zeta in *. rewrite Hd.
+  destruct (e_msg e) as [| | |[ch ts sub]| | | | | | | |]; try reflexivity.
+  unfold sup_decide, sup_targets, set_cur, sc_child.
+  destruct (sp_strategy (a_spec x)) as [|[p|[p|p|]|]]; cbn [N.eqb Pos.eqb fst snd]; try reflexivity;
+    destruct (a_decisions x); reflexivity.
+Qed.
+
+Lemma dispatch_MSup s a x e c :
+  e_msg e = MSup c -> dead_for x e = false ->
+  dispatch s a x e = (set_actor s a (set_decisions (set_cur x e) (snd (sup_decide x))),
+                      [ISupPause c (fst (sup_decide x)) (sup_targets x c) []; IEndHandler]).
+Proof. intros Hm Hd. rewrite (dead_for_dispatch _ _ _ _ Hd). rewrite Hm. reflexivity. Qed.
+
+Lemma consulted_once s a x e c :
+  e_msg e = MSup c -> dead_for x e = false ->
+  exists d ds targets,
+    dispatch s a x e = (set_actor s a (set_decisions (set_cur x e) ds), [ISupPause c d targets []; IEndHandler]) /\
+    (sp_strategy (a_spec x) = 0%N -> d = DStop /\ ds = a_decisions x) /\
+    (sp_strategy (a_spec x) <> 0%N -> a_decisions x = d :: ds \/ (a_decisions x = [] /\ d = DStop /\ ds = [])) /\
+    (sp_strategy (a_spec x) = 2%N -> targets = map (fun p => RObj (snd p)) (a_children x)) /\
+    (sp_strategy (a_spec x) <> 2%N -> targets = [sc_child c]).
+Proof.
+  intros Hm Hd. exists (fst (sup_decide x)), (snd (sup_decide x)), (sup_targets x c).
+  split; [apply dispatch_MSup; assumption|].
+  unfold sup_decide, sup_targets. split; [|split; [|split]].
+  - intros ->. split; reflexivity.
+  - intros H. destruct (N.eqb_spec (sp_strategy (a_spec x)) 0); [contradiction|].
+    destruct (a_decisions x); [right|left]; auto.
+  - intros ->. reflexivity.
+  - intros H. destruct (N.eqb_spec (sp_strategy (a_spec x)) 2); [contradiction|reflexivity].
+Qed.
+
+(** a dead supervisor does not supervise: the report becomes a dead letter *)
+Lemma dead_supervisor s a x e p :
+  dead_for x e = true -> a_parent x = Some p ->
+  dispatch s a x e = (s, [IEnqMb 0 {| e_sys := false; e_sender := root_ref; e_msg := MDeadLetter (e_sys e) (e_msg e) |}; IEnqDone; IEndHandler]).
+Proof. intros Hd Hp. unfold dispatch. unfold dead_for in Hd. cbv zeta in *. rewrite Hd, Hp. reflexivity. Qed.
+
+Lemma sup_targets_spec x c :
+  (sp_strategy (a_spec x) = 2%N -> sup_targets x c = map (fun p => RObj (snd p)) (a_children x)) /\
+  (sp_strategy (a_spec x) <> 2%N -> sup_targets x c = [sc_child c]).
+Proof.
+  unfold sup_targets. split.
+  - intros ->. reflexivity.
+  - intros H. destruct (N.eqb_spec (sp_strategy (a_spec x)) 2); [contradiction|reflexivity].
+Qed.
+
+(* ------------------------------------------------------------------ pick_order *)
+
+Lemma remove_nth_perm {A} (l : list A) k x : nth_error l k = Some x -> Permutation l (x :: remove_nth k l).
+Proof.
+  revert k; induction l as [|h t IH]; intros [|k] H; cbn in *; try discriminate.
+  - inversion H; subst. unfold remove_nth. cbn. apply Permutation_refl.
+  - unfold remove_nth in *. cbn. eapply perm_trans; [apply perm_skip, IH, H|apply perm_swap].
+Qed.
+
+Lemma pick_order_perm {A} (rem order : list A) : pick_order rem order -> Permutation rem order.
+Proof.
+  induction 1 as [|rem k to order Hk _ IH]; [apply perm_nil|].
+  eapply perm_trans; [apply remove_nth_perm, Hk|apply perm_skip, IH].
+Qed.
+
+(** every list order is a possible pick sequence (picking the head each time) *)
+Lemma pick_order_id {A} (l : list A) : pick_order l l.
+Proof. induction l as [|h t IH]; [constructor|]. apply (pick_cons (h :: t) 0 h t); [reflexivity|exact IH]. Qed.
+
+(* ------------------------------------------------------------------ C08-b: pause, then the directive *)
+
+Lemma instr_sends_app l1 l2 : instr_sends (l1 ++ l2) = instr_sends l1 ++ instr_sends l2.
+Proof. induction l1 as [|i r IH]; [reflexivity|]. destruct i; cbn; rewrite ?IH; reflexivity. Qed.
+
+Lemma instr_sends_tells sys sender (m : rref -> msg) l :
+  instr_sends (flat_map (fun r => [IEnq sys r sender (m r); IEnqDone]) l) = map (fun r => (r, sys, m r)) l.
+Proof. induction l as [|r l IH]; [reflexivity|]. cbn. rewrite IH. reflexivity. Qed.
+
+Lemma in_tells sys sender (m : rref -> msg) l i :
+  In i (flat_map (fun r => [IEnq sys r sender (m r); IEnqDone]) l) -> i = IEnqDone \/ exists to, i = IEnq sys to sender (m to).
+Proof.
+  induction l as [|r l IH]; [intros []|]. cbn. intros [<-|[<-|H]]; eauto.
+Qed.
+
+Lemma exec1_ISupPause_nil s t held x c d done :
+  get s (self_of t) = Some x -> exec1 s t held (ISupPause c d [] done) = (s, [ISupApply c d done]).
+Proof. intros H. unfold exec1. rewrite H. reflexivity. Qed.
+
+Lemma exec1_ISupApply s t held x c d order :
+  get s (self_of t) = Some x ->
+  exists ins, exec1 s t held (ISupApply c d order) = (s, ins) /\
+    instr_sends ins = apply_sends (self_of t) x c d order /\
+    (forall i, In i ins -> i = IEnqDone \/ i = IPauseSt \/ exists sys to m, i = IEnq sys to (RObj (self_of t)) m) /\
+    (In IPauseSt ins <-> is_escalation d = true).
+Proof.
+  intros H. unfold exec1. rewrite H.
+  assert (Hc : match c with SupCtx ch _ sub => SupCtx ch order sub end = sc_set_targets c order) by reflexivity.
+  rewrite Hc. unfold apply_sends, resume_sends.
+  destruct d; cbn [is_graceful negb is_escalation]; eexists; (split; [reflexivity|]);
+    rewrite ?instr_sends_app, ?instr_sends_tells, ?app_nil_r; (split; [reflexivity|]); split.
+  all: try (intros i Hi; rewrite ?in_app_iff in Hi;
+            repeat match goal with H : _ \/ _ |- _ => destruct H end;
+            try match goal with H : In _ (flat_map _ _) |- _ => apply in_tells in H; destruct H as [->|(to & ->)]; eauto 6 end;
+            try match goal with H : In _ [] |- _ => destruct H end; subst; eauto 6; fail).
+  all: try (split; [|discriminate]; intros Hi; rewrite ?in_app_iff in Hi;
+            repeat match goal with H : _ \/ _ |- _ => destruct H end;
+            try match goal with H : In _ (flat_map _ _) |- _ => apply in_tells in H; destruct H as [?|(? & ?)]; discriminate end;
+            try match goal with H : In _ [] |- _ => destruct H end; fail).
+  all: try (split; [reflexivity|]; intros _; cbn; auto; fail).
+  all: intros i [<-|[<-|[<-|[]]]]; eauto 6.
+Qed.
+
+Lemma sup_sends_targets self x c d order to sys m :
+  In (to, sys, m) (sup_sends self x c d order) -> In to (chain_targets (sc_set_targets c order) ++ [rref_parent x]).
+Proof.
+  assert (Hin : forall r, In r order -> In r (chain_targets (sc_set_targets c order) ++ [rref_parent x])).
+  { intros r Hr. apply in_or_app; left. destruct c as [ch ts sub]; cbn. apply in_or_app; left; exact Hr. }
+  unfold sup_sends, apply_sends, resume_sends. intros H. apply in_app_or in H as [H|H].
+  - apply in_map_iff in H as (r & E & Hr). inversion E; subst. auto.
+  - destruct d; rewrite ?in_app_iff in H;
+      repeat match goal with H : _ \/ _ |- _ => destruct H end;
+      try (apply in_map_iff in H as (r & E & Hr); inversion E; subst; auto; fail);
+      try (apply in_map_iff in H as (r & E & Hr); inversion E; subst; apply in_or_app; left; exact Hr).
+    all: cbn in H; destruct H as [E|[]]; inversion E; subst; apply in_or_app; right; left; reflexivity.
+Qed.
+
+(** the decision is applied to nobody but the targets (and, for Resume / graceful directives, the targets of the
+    escalation chain below); an escalation goes to the parent only *)
+Lemma sup_sends_shape self x c d order to sys m :
+  In (to, sys, m) (sup_sends self x c d order) ->
+  (In to order /\ m = MCmdPause /\ sys = true) \/
+  (In to order /\ match d with
+                  | DRestart => m = MRestart false /\ sys = true
+                  | DGRestart => m = MRestart true /\ sys = false
+                  | DStop => m = MKill (RObj self) false /\ sys = true
+                  | DGStop => m = MKill (RObj self) true /\ sys = false
+                  | _ => False
+                  end) \/
+  (In to (chain_targets (sc_set_targets c order)) /\ m = MCmdResume /\ sys = true /\
+   match d with DGRestart | DGStop | DResume => True | _ => False end) \/
+  (to = rref_parent x /\ m = MSup (SupCtx (RObj self) [] (Some (sc_set_targets c order))) /\ sys = true /\ is_escalation d = true).
+Proof.
+  unfold sup_sends, apply_sends, resume_sends. intros H. apply in_app_or in H as [H|H].
+  - apply in_map_iff in H as (r & E & Hr). inversion E; subst. auto.
+  - right. destruct d; rewrite ?in_app_iff in H;
+      repeat match goal with H : _ \/ _ |- _ => destruct H end;
+      try (apply in_map_iff in H as (r & E & Hr); inversion E; subst; auto 8; fail).
+    all: cbn in H; destruct H as [E|[]]; inversion E; subst; right; right; auto.
+Qed.
+
+(* ------------------------------------------------------------------ the yielding steps *)
+
+Lemma pend_of_set_pend s t p : err (set_pend s t p) = false -> pend_of (set_pend s t p) t = p.
+Proof.
+  destruct t as [a|i]; cbn [set_pend pend_of]; unfold with_actor.
+  - destruct (get s a) as [x|] eqn:E; [|cbn; discriminate]. intros _.
+    rewrite (get_set_actor_same _ _ _ _ E). reflexivity.
+  - destruct (nth_error (exts s) i) as [x|] eqn:E; [|cbn; discriminate]. intros _.
+    cbn. rewrite (nth_error_upd_same _ _ _ _ E). reflexivity.
+Qed.
+
+(** one pause of the supervision handler: the chosen remaining target gets CommandPauseMailbox as a system
+    message from the supervisor, and moves from [rem] to the end of [done] *)
+Lemma step_ISupPause s t k c d rem done rest :
+  pend_of s t = ISupPause c d rem done :: rest -> err (step s (EvPush t k)) = false ->
+  exists to, nth_error rem k = Some to /\
+    step s (EvPush t k) =
+      set_pend (fst (deliver (snd (resolve s to)) (fst (resolve s to)) {| e_sys := true; e_sender := RObj (self_of t); e_msg := MCmdPause |}))
+               t (IEnqDone :: ISupPause c d (remove_nth k rem) (done ++ [to]) :: rest) /\
+    pend_of (step s (EvPush t k)) t = IEnqDone :: ISupPause c d (remove_nth k rem) (done ++ [to]) :: rest.
+Proof.
+  intros Hp. cbn [step]. rewrite Hp. destruct (nth_error rem k) as [to|]; [|cbn; discriminate].
+  intros He. exists to. split; [reflexivity|].
+  destruct (resolve s to) as [mb s1]. cbn [fst snd]. destruct (deliver s1 mb _) as [s2 b] eqn:E2. cbn [fst].
+  split; [reflexivity|]. apply pend_of_set_pend. exact He.
+Qed.
+
+(** one delivery of a Go map range (children of a stopping actor, watchers, subscribers of an event type) *)
+Lemma step_IEnqAny s t k sys tos sender m rest :
+  pend_of s t = IEnqAny sys tos sender m :: rest -> err (step s (EvPush t k)) = false ->
+  exists to, nth_error tos k = Some to /\
+    step s (EvPush t k) =
+      set_pend (fst (deliver (snd (resolve s to)) (fst (resolve s to)) {| e_sys := sys; e_sender := sender; e_msg := m |}))
+               t (IEnqDone :: match remove_nth k tos with [] => rest | _ :: _ => IEnqAny sys (remove_nth k tos) sender m :: rest end) /\
+    pend_of (step s (EvPush t k)) t = IEnqDone :: match remove_nth k tos with [] => rest | _ :: _ => IEnqAny sys (remove_nth k tos) sender m :: rest end.
+Proof.
+  intros Hp. cbn [step]. rewrite Hp. destruct (nth_error tos k) as [to|]; [|cbn; discriminate].
+  intros He. exists to. split; [reflexivity|].
+  destruct (resolve s to) as [mb s1]. cbn [fst snd]. destruct (deliver s1 mb _) as [s2 b] eqn:E2. cbn [fst].
+  split; [reflexivity|]. apply pend_of_set_pend. exact He.
+Qed.
+
+(** a tell: [findMailbox] runs when the instruction is reached, the queue insertion is the next step of the thread *)
+Lemma step_IEnqR s t k sys mb sender m rest :
+  pend_of s t = IEnqR sys mb sender m :: rest -> err (step s (EvPush t k)) = false ->
+  step s (EvPush t k) = set_pend (fst (deliver s mb {| e_sys := sys; e_sender := sender; e_msg := m |})) t rest /\
+  pend_of (step s (EvPush t k)) t = rest.
+Proof.
+  intros Hp. cbn [step]. rewrite Hp. destruct (deliver s mb _) as [s2 b]. cbn [fst]. intros He.
+  split; [reflexivity|]. apply pend_of_set_pend. exact He.
+Qed.
+
+Lemma run_atomic_IEnq f s t sys to sender m rest :
+  pend_of s t = IEnq sys to sender m :: rest ->
+  run_atomic (S f) s t = set_pend (snd (resolve s to)) t (IEnqR sys (fst (resolve s to)) sender m :: rest).
+Proof. intros Hp. cbn [run_atomic]. rewrite Hp. destruct (resolve s to). reflexivity. Qed.
+
+(* ------------------------------------------------------------------ C08-d: effect of each directive on a target *)
+
+Lemma dead_for_running x e : a_state x = Running -> dead_for x e = false.
+Proof. intros H. unfold dead_for. rewrite H. reflexivity. Qed.
+
+(** Restart, first half: RestartMessage at a running actor starts the stop sequence with [restarting] set *)
+Lemma dispatch_MRestart_running s a x e poison :
+  e_msg e = MRestart poison -> a_state x = Running ->
+  exists x', dispatch s a x e = (set_actor s a x', [IPub evRestarting (actor_key x); IDoKill poison; IEndHandler]) /\
+    stable x x' /\ a_state x' = Killing /\ a_restarting x' = Some poison /\
+    a_cur x' = Some {| e_sys := true; e_sender := e_sender e; e_msg := MKill (RObj a) poison |} /\
+    a_zombie x' = a_zombie x /\ a_children x' = a_children x /\ a_watchers x' = a_watchers x /\ a_stash x' = a_stash x /\
+    a_modes x' = a_modes x /\ a_inst x' = a_inst x /\ a_decisions x' = a_decisions x /\ a_hooks x' = a_hooks x /\
+    same_queues x x'.
+Proof.
+  intros Hm Hs. unfold dispatch. cbv zeta. rewrite Hm, Hs. cbn [andb].
+  eexists; split; [destruct (a_hooks _) as [|[[? ?] ?] ?]; reflexivity|].
+  cbn. repeat split.
+Qed.
+
+(** a RestartMessage at an actor that is already stopping is ignored *)
+Lemma dispatch_MRestart_not_running s a x e poison :
+  e_msg e = MRestart poison -> a_state x <> Running -> dead_for x e = false ->
+  dispatch s a x e = (set_actor s a (set_cur x e), [IEndHandler]).
+Proof.
+  intros Hm Hs Hd. unfold dispatch. unfold dead_for in Hd. cbv zeta in *. rewrite Hd, Hm.
+  destruct (a_state x); [contradiction| |]; reflexivity.
+Qed.
+
+(** with [restarting] set the stop sequence ends in IRestartFinish, not in ICleanup: the registry entry, the
+    subscriptions and the parent's child entry stay, nobody is told OnKilled *)
+Lemma exec1_ICheckMark s t held x :
+  get s (self_of t) = Some x -> a_children x = [] -> a_state x = Killing ->
+  exists x', exec1 s t held ICheckMark =
+    (set_actor s (self_of t) x',
+     [IBeh (MKilled (RObj (self_of t))) (sp_killed (a_spec x)) RecLog; match a_restarting x with None => ICleanup | Some _ => IRestartFinish end]) /\
+    stable x x' /\ a_state x' = Killed /\ a_restarting x' = a_restarting x /\ a_modes x' = a_modes x /\ a_inst x' = a_inst x /\
+    a_stash x' = a_stash x /\ same_queues x x'.
+Proof.
+  intros H Hc Hs. unfold exec1. rewrite H, Hc, Hs. eexists; split; [destruct (a_restarting x); reflexivity|].
+  cbn. repeat split.
+Qed.
+
+Lemma exec1_ICheckMark_waits s t held x :
+  get s (self_of t) = Some x -> a_children x <> [] \/ a_state x <> Killing -> exec1 s t held ICheckMark = (s, []).
+Proof.
+  intros H Hc. unfold exec1. rewrite H. destruct (a_children x); [|reflexivity].
+  destruct (a_state x); try reflexivity. destruct Hc; contradiction.
+Qed.
+
+(** Restart, second half: same context (same index = same reference, same path, generation, parent, spec),
+    behaviour stack reset, a new instance iff the actor comes from a provider, queues and stash kept *)
+Lemma exec1_IRestartFinish s t held x :
+  get s (self_of t) = Some x ->
+  exists x' ins, exec1 s t held IRestartFinish = (set_actor s (self_of t) x', ins) /\
+    stable x x' /\ a_modes x' = [0%N] /\
+    a_inst x' = (if sp_provider (a_spec x) then (a_inst x + 1)%N else a_inst x) /\
+    a_hooks x' = tl (a_hooks x) /\ a_stash x' = a_stash x /\ a_children x' = a_children x /\ a_watchers x' = a_watchers x /\
+    a_decisions x' = a_decisions x /\ a_sq x' = a_sq x /\ a_uq x' = a_uq x /\ a_paused x' = a_paused x /\
+    (restart_hooks_ok x = true ->
+       a_state x' = Running /\ a_restarting x' = None /\ a_zombie x' = a_zombie x /\
+       ins = [IResume1; IPub evRestarted (actor_key x); IPub evResumed (actor_key x);
+              IBeh MLaunch (sp_launch (a_spec x)) RecFail; IPub evLaunched (actor_key x)]) /\
+    (restart_hooks_ok x = false ->
+       a_state x' = a_state x /\ a_restarting x' = a_restarting x /\ a_zombie x' = true /\ ins = [IResume1]).
+Proof.
+  intros H. unfold exec1. rewrite H. unfold restart_hooks_ok.
+  destruct (a_hooks x) as [|[[h1 h2] h3] rest].
+  - eexists; eexists; split; [reflexivity|]. destruct (sp_provider (a_spec x)); cbn; repeat split; try discriminate.
+  - destruct (h2 && h3); eexists; eexists; (split; [reflexivity|]);
+      destruct (sp_provider (a_spec x)); cbn; repeat split; try discriminate.
+Qed.
+
+(** Stop: OnKill at a running actor *)
+Lemma dispatch_MKill_running s a x e k poison :
+  e_msg e = MKill k poison -> a_state x = Running -> a_zombie x = false ->
+  dispatch s a x e = (set_actor s a (set_state (set_cur x e) Killing), [IDoKill poison; IEndHandler]).
+Proof. intros Hm Hs Hz. unfold dispatch. cbv zeta. rewrite Hm, Hs, Hz. reflexivity. Qed.
+
+Lemma exec1_IDoKill s t held x poison :
+  get s (self_of t) = Some x ->
+  exec1 s t held (IDoKill poison) =
+    (s, (match a_children x with
+         | [] => []
+         | l => [IEnqAny (negb poison) (map (fun p => RObj (snd p)) l) (RObj (self_of t)) (MKill (RObj (self_of t)) poison)]
+         end)
+        ++ [IBeh (match a_cur x with Some e => e_msg e | None => MKill RNone poison end) (sp_kill (a_spec x)) RecLog;
+            IOnKilled (RObj (self_of t))]).
+Proof. intros H. unfold exec1. rewrite H. destruct (a_restarting x); reflexivity. Qed.
+
+Lemma ref_eq_self s a x : get s a = Some x -> ref_eq s (RObj a) (RObj a) = true.
+Proof. intros H. unfold ref_eq, ref_path. rewrite H. apply path_eqb_refl. Qed.
+
+Lemma exec1_IOnKilled_self s t held x :
+  get s (self_of t) = Some x -> a_zombie x = false ->
+  exec1 s t held (IOnKilled (RObj (self_of t))) = (s, [ICheckMark]).
+Proof. intros H Hz. unfold exec1. rewrite H, Hz, (ref_eq_self _ _ _ H). reflexivity. Qed.
+
+(** the end of a stop: UnsubscribeAll, registry entry removed, OnKilled to every watcher and to the parent
+    (exactly one tell to the parent), ActorKilledEvent, mailbox.Resume *)
+Lemma exec1_ICleanup s t held x :
+  get s (self_of t) = Some x ->
+  exec1 s t held ICleanup =
+    (set_reg (set_subs s (unsub_all (subs s) (a_path x))) (aremove (reg s) (a_path x)),
+     (match a_watchers x with
+      | [] => []
+      | l => [IEnqAny true (map snd l) (RObj (self_of t)) (MKilled (RObj (self_of t)))]
+      end)
+     ++ (match a_parent x with
+         | Some p => [IEnq true (RObj p) (RObj (self_of t)) (MKilled (RObj (self_of t))); IEnqDone]
+         | None => []
+         end)
+     ++ [IPub evKilled (actor_key x); IResume1]).
+Proof. intros H. unfold exec1. rewrite H. reflexivity. Qed.
+
+Lemma cleanup_notifies_parent s t held x p :
+  get s (self_of t) = Some x -> a_parent x = Some p ->
+  instr_sends (snd (exec1 s t held ICleanup)) = [(RObj p, true, MKilled (RObj (self_of t)))].
+Proof.
+  intros H Hp. rewrite (exec1_ICleanup _ _ _ _ H). cbn [snd]. rewrite Hp, !instr_sends_app.
+  destruct (a_watchers x); reflexivity.
+Qed.
+
+(** Resume: CommandResumeMailbox only resumes the mailbox *)
+Lemma dispatch_MCmdResume s a x e :
+  e_msg e = MCmdResume -> dead_for x e = false ->
+  dispatch s a x e = (set_actor s a (set_cur x e), [IResume1; IPub evResumed (actor_key x); IEndHandler]).
+Proof. intros Hm Hd. rewrite (dead_for_dispatch _ _ _ _ Hd), Hm. reflexivity. Qed.
+
+Lemma dispatch_MCmdPause s a x e :
+  e_msg e = MCmdPause -> dead_for x e = false ->
+  dispatch s a x e = (set_actor s a (set_cur x e), [IPauseSt; IPub evPaused (actor_key x); IEndHandler]).
+Proof. intros Hm Hd. rewrite (dead_for_dispatch _ _ _ _ Hd), Hm. reflexivity. Qed.
+
+Lemma set_cur_same x e : stable x (set_cur x e) /\ same_user_state x (set_cur x e) /\ same_queues x (set_cur x e) /\ a_cons (set_cur x e) = a_cons x.
+Proof. unfold stable, same_user_state, same_queues. cbn. repeat split. Qed.
+
+Lemma step_EvResume1 s t x rest :
+  pend_of s t = IResume1 :: rest -> get s (self_of t) = Some x -> a_paused x = true ->
+  step s (EvResume1 t) = set_pend (set_actor s (self_of t) (set_mb x (a_sq x) (a_uq x) false (a_cons x) (a_cur x))) t (IResume2 :: rest).
+Proof. intros Hp H Hpa. cbn [step]. rewrite Hp, H, Hpa. reflexivity. Qed.
+
+(* ------------------------------------------------------------------ nothing but a queue insertion fills a queue *)
+
+Lemma keeps_mail_refl st s : keeps_mail st s s.
+Proof. intros b y H. exists y. auto 10. Qed.
+
+Lemma keeps_mail_actors st s s' : actors s' = actors s -> keeps_mail st s s'.
+Proof. intros E b y H. exists y. unfold get in *. rewrite E. auto 10. Qed.
+
+Lemma keeps_mail_set_actor st s a x x' :
+  get s a = Some x -> a_sq x' = a_sq x -> a_uq x' = a_uq x -> a_paused x' = a_paused x ->
+  (st = true -> a_stash x' = a_stash x) -> keeps_mail st s (set_actor s a x').
+Proof.
+  intros H E1 E2 E3 E5 b y Hb. destruct (Nat.eq_dec a b) as [->|N].
+  - rewrite (get_set_actor_same _ _ _ _ H). rewrite H in Hb; inversion Hb; subst. exists x'. auto 10.
+  - rewrite get_set_actor_other by exact N. exists y. auto 10.
+Qed.
+
+Lemma keeps_mail_trans st s1 s2 s3 : keeps_mail st s1 s2 -> keeps_mail st s2 s3 -> keeps_mail st s1 s3.
+Proof.
+  intros H1 H2 b y H. destruct (H1 b y H) as (y' & H' & A1 & A2 & A3 & A5).
+  destruct (H2 b y' H') as (y'' & H'' & B1 & B2 & B3 & B5). exists y''.
+  repeat split; try congruence. intros E. rewrite (B5 E), (A5 E). reflexivity.
+Qed.
+
+Ltac mail_solve :=
+  first
+    [ apply keeps_mail_refl
+    | apply keeps_mail_actors; reflexivity
+    | eapply keeps_mail_set_actor; [eassumption|..];
+      repeat match goal with |- context[match ?e with _ => _ end] => destruct e end; solve [reflexivity | intros; reflexivity | discriminate] ].
+
+Lemma exec1_keeps_mail s t held i : keeps_mail (negb (touches_stash i)) s (fst (exec1 s t held i)).
+Proof.
+  unfold exec1. destruct (get s (self_of t)) as [x|] eqn:Hx; [|cbn; mail_solve].
+  destruct i as [sys to sender m|sys to sender m|to e| |sys tos sender m|c d rem done| | | |a|m acts r| |ty payload|poison|who| | | | |c d targets|o| ];
+    cbn [fst touches_stash negb]; try mail_solve.
+  - destruct rem; cbn [fst]; mail_solve.
+  - destruct a as [r tag acts|tag acts|sp|r poison| |n| |r|r|ty|ty| |ty payload|mode discard|discard]; cbn [fst negb]; try mail_solve.
+    + (* ASpawn *)
+      destruct (a_state x); cbn [fst]; try mail_solve.
+      all: destruct (negb (sp_prelaunch sp)); cbn [fst]; [mail_solve|].
+      all: destruct (alookup (reg s) (a_path x ++ [sp_name sp])); cbn [fst]; [mail_solve|].
+      all: unfold with_actor;
+        match goal with |- context[match get ?s1 ?a1 with _ => _ end] =>
+          assert (Hg : get s1 a1 = Some x)
+            by (unfold get in *; cbn; rewrite nth_error_app1; [exact Hx|apply nth_error_Some; congruence]);
+          rewrite Hg; apply keeps_mail_trans with s1
+        end.
+      all: try (intros b y Hb; exists y; split; [unfold get in *; cbn; rewrite nth_error_app1; [exact Hb|apply nth_error_Some; congruence]|auto 10]).
+      all: mail_solve.
+    + destruct (a_cur x); cbn [fst]; mail_solve.
+    + destruct n; [|destruct (a_stash x); cbn [fst]; mail_solve].
+      destruct (Nat.eqb (length (a_stash x)) 0); cbn [fst]; mail_solve.
+    + destruct (alookup (subscribers s ty) (a_path x)); cbn [fst]; mail_solve.
+    + destruct (nlookup (subs s) ty); cbn [fst]; mail_solve.
+  - destruct (a_zombie x); cbn [fst]; [mail_solve|].
+    destruct (a_parent x).
+    + destruct (take_until_panic acts). cbn [fst]. mail_solve.
+    + destruct m; cbn [fst]; try mail_solve. destruct (ref_eq s who (RObj (self_of t))); cbn [fst]; mail_solve.
+  - destruct (subscribers s ty); cbn [fst]; mail_solve.
+  - destruct (a_zombie x); cbn [fst]; [mail_solve|].
+    destruct (ref_eq s who (RObj (self_of t))); cbn [fst]; mail_solve.
+  - destruct (a_children x); [|cbn [fst]; mail_solve]. destruct (a_state x); cbn [fst]; try mail_solve.
+  - destruct (a_hooks x) as [|[[h1 h2] h3] rest]; [cbn [fst]; mail_solve|].
+    destruct (h2 && h3); cbn [fst]; mail_solve.
+  - destruct d; cbn [fst]; mail_solve.
+Qed.
+
+Lemma instr_direct_app l1 l2 : instr_direct (l1 ++ l2) = instr_direct l1 ++ instr_direct l2.
+Proof. induction l1 as [|i r IH]; [reflexivity|]. destruct i; cbn; rewrite ?IH; reflexivity. Qed.
+
+Lemma instr_direct_acts l : instr_direct (map IAct l) = [].
+Proof. induction l; [reflexivity|exact IHl]. Qed.
+
+Lemma instr_direct_tells sys sender (m : rref -> msg) l :
+  instr_direct (flat_map (fun r => [IEnq sys r sender (m r); IEnqDone]) l) = [].
+Proof. induction l; [reflexivity|exact IHl]. Qed.
+
+Lemma instr_direct_unstash self l :
+  instr_direct (flat_map (fun e => [IEnqMb self e; IEnqDone]) l) = map (pair self) l.
+Proof. induction l as [|e l IH]; [reflexivity|]. cbn. rewrite IH. reflexivity. Qed.
+
+Lemma firstn_in {A} n (l : list A) x : In x (firstn n l) -> In x l.
+Proof. revert l; induction n as [|n IH]; intros [|h t]; cbn; auto; try tauto. intros [->|H]; auto. Qed.
+
+(** the only envelopes an instruction hands directly to a mailbox are a fresh TellSelf message and stashed
+    envelopes released by Unstash (both to the own mailbox) *)
+Lemma exec1_direct s t held i x b e :
+  get s (self_of t) = Some x -> In (b, e) (instr_direct (snd (exec1 s t held i))) ->
+  b = self_of t /\
+  ((exists tag acts, i = IAct (ATellSelf tag acts) /\ e = {| e_sys := false; e_sender := RObj (self_of t); e_msg := MUser tag acts |}) \/
+   (exists n, i = IAct (AUnstash n) /\ In e (a_stash x))).
+Proof.
+  intros Hx. unfold exec1. rewrite Hx.
+  destruct i as [sys to sender m|sys to sender m|to e0| |sys tos sender m|c d rem done| | | |a|m acts r| |ty payload|poison|who| | | | |c d targets|o| ];
+    cbn [snd instr_direct]; try (intros []; fail).
+  - destruct rem; intros [].
+  - destruct a as [r tag acts|tag acts|sp|r poison| |n| |r|r|ty|ty| |ty payload|mode discard|discard]; cbn [snd instr_direct]; try (intros []; fail).
+    + intros [E|[]]. inversion E; subst. eauto 8.
+    + destruct (a_state x); cbn [snd instr_direct]; try (intros []; fail).
+      all: destruct (negb (sp_prelaunch sp)); cbn [snd instr_direct]; [intros []|].
+      all: destruct (alookup (reg s) (a_path x ++ [sp_name sp])); cbn [snd instr_direct]; intros [].
+    + destruct (a_cur x); intros [].
+    + destruct n as [n|].
+      * destruct (Nat.eqb (length (a_stash x)) 0); cbn [snd instr_direct]; [intros []|].
+        rewrite instr_direct_unstash. intros H. apply in_map_iff in H as (e1 & E & H1). inversion E; subst.
+        split; [reflexivity|]. right. eexists; split; [reflexivity|]. eapply firstn_in; eauto.
+      * destruct (a_stash x) eqn:Es; cbn [snd instr_direct]; [intros []|]. intros [E|[]]. inversion E; subst.
+        split; [reflexivity|]. right. eexists; split; [reflexivity|]. left; reflexivity.
+    + destruct (alookup (subscribers s ty) (a_path x)); intros [].
+    + destruct (nlookup (subs s) ty); intros [].
+  - destruct (a_zombie x); [intros []|]. destruct (a_parent x).
+    + destruct (take_until_panic acts) as [pre pn]. cbn [snd]. rewrite instr_direct_app, instr_direct_acts.
+      destruct pn; [|intros []]. destruct r; [intros []|intros []|]. destruct (a_state x); try (intros []; fail).
+      destruct (ref_eq s who (RObj (self_of t))); intros [].
+    + destruct m; try (intros []; fail). destruct (ref_eq s who (RObj (self_of t))); intros [].
+  - destruct (subscribers s ty); intros [].
+  - rewrite instr_direct_app. destruct (a_children x); intros [].
+  - destruct (a_zombie x); [intros []|]. destruct (ref_eq s who (RObj (self_of t))); intros [].
+  - destruct (a_children x); [|intros []]. destruct (a_state x); try (intros []; fail).
+    cbn [snd]. destruct (a_restarting x); intros [].
+  - rewrite !instr_direct_app. destruct (a_watchers x), (a_parent x); intros [].
+  - destruct (a_hooks x) as [|[[h1 h2] h3] rest]; [intros []|]. destruct (h2 && h3); intros [].
+  - destruct d; cbn [snd is_graceful negb]; rewrite ?instr_direct_app, ?instr_direct_tells; intros [].
+Qed.
+
+(* ------------------------------------------------------------------ C08-e: failure reports *)
+
+Lemma count_failed_acts l : count_failed (map IAct l) = 0.
+Proof. induction l; [reflexivity|exact IHl]. Qed.
+
+Lemma count_failed_app l1 l2 : count_failed (l1 ++ l2) = count_failed l1 + count_failed l2.
+Proof. induction l1 as [|i r IH]; [reflexivity|]. destruct i; cbn; rewrite ?IH; reflexivity. Qed.
+
+(** running the user behaviour for message [m] (any actor that is not the guard and not a zombie) *)
+Lemma exec1_IBeh s t held x p m acts r :
+  get s (self_of t) = Some x -> a_zombie x = false -> a_parent x = Some p ->
+  exec1 s t held (IBeh m acts r) =
+    (add_obs s (OSeen (self_of t) (a_inst x) (match a_cons x with CBusy md => md | _ => mode_top x end) m),
+     map IAct (fst (take_until_panic acts)) ++
+     if snd (take_until_panic acts) then
+       match r with
+       | RecLog => []
+       | RecFail => [IFailed]
+       | RecKilled who => match a_state x with Running => if ref_eq s who (RObj (self_of t)) then [] else [IFailed] | _ => [] end
+       end
+     else []).
+Proof. intros H Hz Hp. unfold exec1. rewrite H, Hz, Hp. destruct (take_until_panic acts). reflexivity. Qed.
+
+(** a panic (or Failed) in a behaviour run with the RecFail recovery yields exactly one failure report,
+    no panic yields none *)
+Lemma failure_reports_once s t held x p m acts :
+  get s (self_of t) = Some x -> a_zombie x = false -> a_parent x = Some p ->
+  count_failed (snd (exec1 s t held (IBeh m acts RecFail))) = if snd (take_until_panic acts) then 1 else 0.
+Proof.
+  intros H Hz Hp. rewrite (exec1_IBeh _ _ _ _ _ _ _ _ H Hz Hp). cbn [snd].
+  rewrite count_failed_app, count_failed_acts. destruct (snd (take_until_panic acts)); reflexivity.
+Qed.
+
+Lemma exec1_IFailed s t held x :
+  get s (self_of t) = Some x ->
+  exec1 s t held IFailed =
+    (s, [IPauseSt; IEnq true (rref_parent x) (RObj (self_of t)) (MSup (SupCtx (RObj (self_of t)) [] None)); IEnqDone;
+         IPub evFailed (actor_key x); IPub evPaused (actor_key x)]).
+Proof. intros H. unfold exec1. rewrite H. reflexivity. Qed.
+
+(** no supervision while stopping: the recovery used for OnKill and for the own OnKilled never reports;
+    the recovery used for a child's OnKilled reports only in state running *)
+Lemma no_report_RecLog s t held m acts : count_failed (snd (exec1 s t held (IBeh m acts RecLog))) = 0.
+Proof.
+  unfold exec1. destruct (get s (self_of t)) as [x|]; [|reflexivity].
+  destruct (a_zombie x); [reflexivity|]. destruct (a_parent x).
+  - destruct (take_until_panic acts) as [pre pn]. cbn [snd]. rewrite count_failed_app, count_failed_acts.
+    destruct pn; reflexivity.
+  - destruct m; try reflexivity. destruct (ref_eq s who (RObj (self_of t))); reflexivity.
+Qed.
+
+Lemma no_report_RecKilled s t held x m acts who :
+  get s (self_of t) = Some x -> a_state x <> Running \/ ref_eq s who (RObj (self_of t)) = true ->
+  count_failed (snd (exec1 s t held (IBeh m acts (RecKilled who)))) = 0.
+Proof.
+  intros H Hc. unfold exec1. rewrite H.
+  destruct (a_zombie x); [reflexivity|]. destruct (a_parent x).
+  - destruct (take_until_panic acts) as [pre pn]. cbn [snd]. rewrite count_failed_app, count_failed_acts.
+    destruct pn; [|reflexivity]. destruct (a_state x); try reflexivity.
+    destruct Hc as [Hc|Hc]; [contradiction|]. rewrite Hc. reflexivity.
+  - destruct m; try reflexivity. destruct (ref_eq s who0 (RObj (self_of t))); reflexivity.
+Qed.
+
+(** the stop sequence runs OnKill with RecLog and the own OnKilled with RecLog *)
+Lemma stop_sequence_recoveries s t held x poison :
+  get s (self_of t) = Some x ->
+  (forall m acts r, In (IBeh m acts r) (snd (exec1 s t held (IDoKill poison))) -> r = RecLog) /\
+  (forall m acts r, In (IBeh m acts r) (snd (exec1 s t held ICheckMark)) -> r = RecLog).
+Proof.
+  intros H. split; intros m acts r Hin.
+  - rewrite (exec1_IDoKill _ _ _ _ _ H) in Hin. cbn [snd] in Hin. apply in_app_or in Hin as [Hin|Hin].
+    + destruct (a_children x); [destruct Hin|]. destruct Hin as [E|[]]; discriminate.
+    + destruct Hin as [E|[E|[]]]; [inversion E; reflexivity|discriminate].
+  - unfold exec1 in Hin. rewrite H in Hin. destruct (a_children x); [|destruct Hin].
+    destruct (a_state x); try (destruct Hin; fail). cbn [snd] in Hin.
+    destruct Hin as [E|Hin]; [inversion E; reflexivity|]. destruct (a_restarting x); destruct Hin as [E|[]]; discriminate.
+Qed.
+
+(** the system default at the top: the root has no strategy, it stops the failing top-level actor *)
+Lemma root_default s x c : reachable s -> get s 0 = Some x -> sup_decide x = (DStop, a_decisions x) /\ sup_targets x c = [sc_child c].
+Proof.
+  intros Hr H. destruct (root_inv s Hr) as (x0 & H0 & Hs & _). rewrite H in H0; inversion H0; subst x0.
+  unfold sup_decide, sup_targets. rewrite Hs. split; reflexivity.
 Qed.
